@@ -54,21 +54,44 @@ theorem factories_names_ne_nil : ∀ f ∈ factories, 1 ≤ f.name.length := by 
 
 theorem stripLoop_length : ∀ (fuel : Nat) (e e' : List Char), stripLoop fuel e = .ok e' →
     e'.length ≤ e.length
-  | 0, e, e', h => by simp [stripLoop] at h; subst h; exact Nat.le_refl _
-  | fuel+1, [], e', h => by simp [stripLoop] at h
-  | fuel+1, c :: tl, e', h => by
+  | 0, e, e', h => by simp [stripLoop] at h
+  | fuel+1, [], e', h => by simp [stripLoop] at h; subst h; exact Nat.le_refl _
+  | fuel+1, [c], e', h => by simp [stripLoop] at h; subst h; exact Nat.le_refl _
+  | fuel+1, c0 :: c1 :: tl, e', h => by
     rw [stripLoop] at h
     split at h
-    next p o hs =>
-      split at h
-      · have := stripLoop_length fuel _ _ h
-        simp only [List.length_dropLast, List.length_cons] at this ⊢
-        omega
-      · injection h with h; subst h; exact Nat.le_refl _
-    next o hs =>
-      split at h
-      · injection h with h; subst h; exact Nat.le_refl _
+    · injection h with h; subst h; exact Nat.le_refl _
+    · split at h
       · cases h
+      · split at h
+        next p o hs =>
+          split at h
+          · have := stripLoop_length fuel _ _ h
+            simp only [List.length_dropLast, List.length_cons] at this ⊢
+            omega
+          · injection h with h; subst h; exact Nat.le_refl _
+        next o hs => cases h
+
+/-- the fuel of the bracket loop is never exhausted: every pass but the last removes two characters -/
+theorem stripLoop_ne_fuel : ∀ (fuel : Nat) (e : List Char), e.length < fuel →
+    stripLoop fuel e ≠ .error .fuel
+  | 0, e, h => by omega
+  | fuel+1, [], h => by simp [stripLoop]
+  | fuel+1, [c], h => by simp [stripLoop]
+  | fuel+1, c0 :: c1 :: tl, h => by
+    rw [stripLoop]
+    split
+    · simp
+    · split
+      · simp
+      · split
+        next p o hs =>
+          split
+          · refine stripLoop_ne_fuel fuel _ ?_
+            simp only [List.length_dropLast, List.length_cons] at h ⊢
+            omega
+          · simp
+        next o hs => simp
 
 theorem stripBrackets_length {e e' : List Char} (h : stripBrackets e = .ok e') :
     e'.length ≤ e.length := by
@@ -107,23 +130,7 @@ theorem parseCore_ne_fuel (known : String → Bool) : ∀ (n : Nat) (cs : List C
         · intro hf
           injection hf with hf
           subst hf
-          -- `stripLoop` never reports `fuel`
-          have : ∀ (k : Nat) (x : List Char), stripLoop k x ≠ .error .fuel := by
-            intro k
-            induction k with
-            | zero => intro x; simp [stripLoop]
-            | succ k ih =>
-              intro x
-              cases x with
-              | nil => simp [stripLoop]
-              | cons c tl =>
-                rw [stripLoop]
-                split
-                · split
-                  · exact ih _
-                  · simp
-                · split <;> simp
-          exact this _ _ hs
+          exact stripLoop_ne_fuel _ _ (Nat.lt_succ_self _) hs
       · cases hs
     | ok expr =>
       have hlen := stripBrackets_length hs
